@@ -5,7 +5,7 @@
 //! through an identically planned reader, then the reference predicate.
 
 use crate::common::*;
-use crate::deleg::{Ref, RefStrict};
+use crate::deleg::{family_verdict, FamilyVerdict, Ref, RefLenient, RefNoHint, RefStrict, Words};
 use crate::prng::{Hash64, Rng};
 use crate::values::{self, half_ulp, hexword, next_down_bits, next_up_bits, ref_valid_bits, SIGN};
 use serde::{Deserialize, Serialize};
@@ -308,7 +308,14 @@ pub fn execute_write(c: &JsonWriteCase) -> LegReport {
 
     // S-rt through the real format: own output, three reader APIs
     if r0.is_ok() {
-        for (i, res) in decode_all(&w0.data).into_iter().enumerate() {
+        let decoded = match guarded(|| decode_all(&w0.data)) {
+            Ok(d) => d.to_vec(),
+            Err(msg) => {
+                rep.violations.push(viol("PANIC", format!("deserialize from own JSON output panicked: {msg}")));
+                Vec::new()
+            }
+        };
+        for (i, res) in decoded.into_iter().enumerate() {
             let api = ["from_slice", "from_str", "from_reader"][i];
             match res {
                 Ok((h, l)) if h == c.hi && l == c.lo => rep.probes.hit("json_rt_ok"),
@@ -475,13 +482,34 @@ pub fn generate_write(r: &mut Rng, hi: u64, lo: u64) -> JsonWriteCase {
         plan.interrupt_calls.sort_unstable();
         plan.interrupt_calls.dedup();
     }
+    // place the hard fault inside the operation as it unfolds under the benign part of the
+    // plan (short writes and EINTR multiply the calls), and never on an interrupted call
+    let ncalls = {
+        let mut w = SimWriter::new(&plan);
+        match guarded(|| to_writer_generic(&mut w, &x, pretty)) {
+            Ok(_) => w.calls.max(1),
+            Err(_) => ncalls,
+        }
+    };
+    let free_call = |r: &mut Rng, plan: &WriterPlan| -> usize {
+        for _ in 0..8 {
+            let k = r.usize_below(ncalls);
+            if !plan.interrupt_calls.contains(&k) {
+                return k;
+            }
+        }
+        0
+    };
     match r.below(4) {
-        0 => plan.fail_at_call = Some(r.usize_below(ncalls)),
-        1 => plan.zero_at_call = Some(r.usize_below(ncalls)),
+        0 => plan.fail_at_call = Some(free_call(r, &plan)),
+        1 => plan.zero_at_call = Some(free_call(r, &plan)),
         _ => {}
     }
     if !plan.is_faulty() {
-        plan.fail_at_call = Some(r.usize_below(ncalls));
+        plan.fail_at_call = Some(free_call(r, &plan));
+    }
+    if let Some(k) = plan.fail_at_call.or(plan.zero_at_call) {
+        plan.interrupt_calls.retain(|i| *i != k);
     }
     c.plan = plan;
     c
@@ -568,6 +596,11 @@ pub struct ReaderPlan {
     pub fail_at_offset: Option<usize>,
     /// the stream ends early after this many bytes
     pub eof_at: Option<usize>,
+    /// wrap the stream in a `std::io::BufReader` of this capacity (what callers of
+    /// `serde_json::from_reader` are told to do): the stream then sees multi-byte reads,
+    /// so short reads become observable
+    #[serde(default)]
+    pub buffered: Option<usize>,
 }
 
 pub struct SimReader<'a> {
@@ -576,6 +609,8 @@ pub struct SimReader<'a> {
     pos: usize,
     pub calls: usize,
     pub interrupts: u32,
+    /// reads that returned fewer bytes than both the buffer and the stream allowed
+    pub shorts: u32,
     pub hard_fired: bool,
     pub eof_fired: bool,
     pub log: Hash64,
@@ -583,7 +618,7 @@ pub struct SimReader<'a> {
 
 impl<'a> SimReader<'a> {
     pub fn new(data: &'a [u8], plan: &'a ReaderPlan) -> Self {
-        SimReader { data, plan, pos: 0, calls: 0, interrupts: 0, hard_fired: false, eof_fired: false, log: Hash64::default() }
+        SimReader { data, plan, pos: 0, calls: 0, interrupts: 0, shorts: 0, hard_fired: false, eof_fired: false, log: Hash64::default() }
     }
 }
 
@@ -620,6 +655,9 @@ impl Read for SimReader<'_> {
         let avail = end.saturating_sub(self.pos);
         let mut n = avail.min(buf.len());
         if let Some(m) = self.plan.max_chunk {
+            if m.max(1) < n {
+                self.shorts += 1;
+            }
             n = n.min(m.max(1));
         }
         buf[..n].copy_from_slice(&self.data[self.pos..self.pos + n]);
@@ -644,6 +682,18 @@ pub struct JsonReadCase {
 
 pub fn derive_bytes(c: &JsonReadCase) -> Vec<u8> {
     apply_byte_faults(c.base.as_bytes(), &c.faults)
+}
+
+/// For each byte fault, whether it actually changed the stored bytes.
+pub fn byte_faults_effective(base: &[u8], faults: &[ByteFault]) -> Vec<bool> {
+    let mut out = Vec::with_capacity(faults.len());
+    let mut prev = base.to_vec();
+    for n in 1..=faults.len() {
+        let cur = apply_byte_faults(base, &faults[..n]);
+        out.push(cur != prev);
+        prev = cur;
+    }
+    out
 }
 
 pub fn apply_byte_faults(base: &[u8], faults: &[ByteFault]) -> Vec<u8> {
@@ -694,6 +744,7 @@ struct ReadOutcome<T> {
     result: Result<T, String>,
     calls: usize,
     interrupts: u32,
+    shorts: u32,
     hard_fired: bool,
     eof_fired: bool,
     log: u64,
@@ -718,13 +769,17 @@ fn read_as<T: for<'de> Deserialize<'de>>(host: Host, bytes: &[u8], api: Api, pla
     match api {
         Api::FromReader => {
             let mut rd = SimReader::new(bytes, plan);
-            let r = finish::<T, _>(host, serde_json::Deserializer::from_reader(&mut rd));
-            ReadOutcome { result: r, calls: rd.calls, interrupts: rd.interrupts, hard_fired: rd.hard_fired, eof_fired: rd.eof_fired, log: rd.log.finish() }
+            let r = match plan.buffered {
+                Some(cap) => finish::<T, _>(host, serde_json::Deserializer::from_reader(std::io::BufReader::with_capacity(cap.max(1), &mut rd))),
+                None => finish::<T, _>(host, serde_json::Deserializer::from_reader(&mut rd)),
+            };
+            ReadOutcome { result: r, calls: rd.calls, interrupts: rd.interrupts, shorts: rd.shorts, hard_fired: rd.hard_fired, eof_fired: rd.eof_fired, log: rd.log.finish() }
         }
         Api::FromSlice => ReadOutcome {
             result: finish::<T, _>(host, serde_json::Deserializer::from_slice(bytes)),
             calls: 0,
             interrupts: 0,
+            shorts: 0,
             hard_fired: false,
             eof_fired: false,
             log: 0,
@@ -741,14 +796,14 @@ fn read_as<T: for<'de> Deserialize<'de>>(host: Host, bytes: &[u8], api: Api, pla
                     }
                 }
             };
-            ReadOutcome { result: r, calls: 0, interrupts: 0, hard_fired: false, eof_fired: false, log: 0 }
+            ReadOutcome { result: r, calls: 0, interrupts: 0, shorts: 0, hard_fired: false, eof_fired: false, log: 0 }
         }
         Api::FromStr => {
             let r = match std::str::from_utf8(bytes) {
                 Ok(s) => finish::<T, _>(host, serde_json::Deserializer::from_str(s)),
                 Err(_) => finish::<T, _>(host, serde_json::Deserializer::from_slice(bytes)),
             };
-            ReadOutcome { result: r, calls: 0, interrupts: 0, hard_fired: false, eof_fired: false, log: 0 }
+            ReadOutcome { result: r, calls: 0, interrupts: 0, shorts: 0, hard_fired: false, eof_fired: false, log: 0 }
         }
     }
 }
@@ -775,8 +830,15 @@ fn words_list(ws: &[(u64, u64)]) -> String {
 pub fn execute_read(c: &JsonReadCase) -> LegReport {
     let mut rep = LegReport::default();
     let bytes = derive_bytes(c);
-    for f in &c.faults {
-        rep.faults_fired.hit(f.label());
+    for (f, eff) in c.faults.iter().zip(byte_faults_effective(c.base.as_bytes(), &c.faults)) {
+        if eff {
+            rep.faults_fired.hit(f.label());
+        } else {
+            rep.probes.hit("byte_fault_planned_without_effect");
+        }
+    }
+    if c.api == Api::FromReader && c.plan.buffered.is_some() {
+        rep.probes.hit("json_reader_behind_bufreader");
     }
     let plan_faulty = c.api == Api::FromReader
         && (c.plan.max_chunk.is_some() || !c.plan.interrupt_calls.is_empty() || c.plan.fail_at_offset.is_some() || c.plan.eof_at.is_some());
@@ -789,36 +851,29 @@ pub fn execute_read(c: &JsonReadCase) -> LegReport {
     });
     rep.probes.hit(host_probe(c.host));
 
-    // oracle: derive on Ref, inside the same host, through the identical stream
-    let oracle = match guarded(|| read_as::<Ref>(c.host, &bytes, c.api, &c.plan)) {
-        Ok(o) => o,
-        Err(msg) => {
-            rep.violations.push(viol("HARNESS", format!("oracle panicked: {msg}")));
-            return rep;
-        }
-    };
-    let expect: Result<Vec<(u64, u64)>, String> = match &oracle.result {
-        Ok(rs) => {
-            let ws: Vec<(u64, u64)> = rs.iter().map(|r| (r.hi.to_bits(), r.lo.to_bits())).collect();
-            match ws.iter().find(|(h, l)| !ref_valid_bits(*h, *l)) {
-                None => Ok(ws),
-                Some((h, l)) => Err(if f64::from_bits(*h).is_finite() && f64::from_bits(*l).is_finite() { "overlap".into() } else { "non-finite".into() }),
+    // oracle family, each inside the same host and through the identical stream: serde's derive on
+    // `Ref` (the standard reader), a reader that insists on f64-typed words, the most liberal
+    // conforming reader (numeric strings, integers, extra sequence elements drained, no `fields`
+    // hint) and the standard reader without the `fields` hint. The outcome is determinate only
+    // where all of them agree.
+    fn oracle<T: Words + for<'de> Deserialize<'de>>(c: &JsonReadCase, bytes: &[u8]) -> Result<Result<Vec<(u64, u64)>, String>, String> {
+        guarded(|| read_as::<T>(c.host, bytes, c.api, &c.plan)).map(|o| o.result.map(|rs| rs.iter().map(|r| r.words()).collect()))
+    }
+    let (std_res, strict, lenient, nohint) =
+        match (oracle::<Ref>(c, &bytes), oracle::<RefStrict>(c, &bytes), oracle::<RefLenient>(c, &bytes), oracle::<RefNoHint>(c, &bytes)) {
+            (Ok(a), Ok(b), Ok(c2), Ok(d)) => (a, b, c2, d),
+            other => {
+                rep.violations.push(viol("HARNESS", format!("an oracle panicked: {:?}", other)));
+                return rep;
             }
-        }
-        Err(e) => Err(e.clone()),
+        };
+    let verdict = family_verdict(&std_res, &[("f64-only", strict), ("lenient", lenient), ("hint-free", nohint)]);
+    let unspecified = matches!(verdict, FamilyVerdict::Unspecified(_));
+    let expect: Result<Vec<(u64, u64)>, String> = match &verdict {
+        FamilyVerdict::Accept(ws) => Ok(ws.clone()),
+        FamilyVerdict::Reject(e) => Err(e.clone()),
+        FamilyVerdict::Unspecified(e) => Err(format!("unspecified: {e}")),
     };
-
-    // the same through a reader that insists on f64-typed numbers: if the two
-    // disagree on accept/reject the record carries integer-typed numbers, about
-    // which the property says nothing
-    let strict_ok = match guarded(|| read_as::<RefStrict>(c.host, &bytes, c.api, &c.plan)) {
-        Ok(o) => o.result.is_ok(),
-        Err(msg) => {
-            rep.violations.push(viol("HARNESS", format!("strict oracle panicked: {msg}")));
-            return rep;
-        }
-    };
-    let unspecified = oracle.result.is_ok() && !strict_ok;
 
     let got = match guarded(|| read_as::<TwoFloat>(c.host, &bytes, c.api, &c.plan)) {
         Ok(o) => o,
@@ -840,8 +895,8 @@ pub fn execute_read(c: &JsonReadCase) -> LegReport {
     if got.eof_fired {
         rep.faults_fired.hit("reader_early_eof");
     }
-    if c.plan.max_chunk.is_some() && c.api == Api::FromReader {
-        rep.faults_fired.hit("reader_short_reads");
+    if got.shorts > 0 {
+        rep.faults_fired.add("reader_short_reads", got.shorts as u64);
     }
     let got_words: Result<Vec<(u64, u64)>, String> =
         got.result.as_ref().map(|ts| ts.iter().map(|t| (t.hi().to_bits(), t.lo().to_bits())).collect()).map_err(|e| e.clone());
@@ -859,7 +914,7 @@ pub fn execute_read(c: &JsonReadCase) -> LegReport {
         rep.violations.push(viol("DE_SWALLOWED_IO_ERROR", "the reader failed hard, deserialize still returned Ok"));
     }
     if unspecified {
-        rep.probes.hit("json_integer_typed_numbers_unspecified");
+        rep.probes.hit("json_conforming_readers_disagree_unspecified");
     }
     match (&expect, &got_words) {
         _ if unspecified => {}
@@ -1140,6 +1195,9 @@ pub fn generate_read(r: &mut Rng, hi: u64, lo: u64, other: (u64, u64)) -> JsonRe
     if fam_reader {
         c.api = Api::FromReader;
         if r.bool() {
+            c.plan.buffered = Some(*r.pick(&[8usize, 16, 64, 4096]));
+        }
+        if r.bool() {
             c.plan.max_chunk = Some(1 + r.usize_below(7));
         }
         if r.bool() {
@@ -1174,6 +1232,9 @@ pub fn shrink_read(c: &JsonReadCase) -> Vec<JsonReadCase> {
     push(JsonReadCase { plan: ReaderPlan::default(), ..c.clone() });
     let mut p = c.plan.clone();
     p.max_chunk = None;
+    push(JsonReadCase { plan: p, ..c.clone() });
+    let mut p = c.plan.clone();
+    p.buffered = None;
     push(JsonReadCase { plan: p, ..c.clone() });
     let mut p = c.plan.clone();
     p.interrupt_calls.clear();
